@@ -37,7 +37,7 @@ pub fn fan_out(n: usize, args: &[String]) -> Vec<WorkerOutput> {
             .arg(format!("--worker={i}/{n}"))
             .stdin(Stdio::null())
             .stdout(Stdio::piped())
-            .stderr(Stdio::inherit());
+            .stderr(Stdio::piped());
         let child = cmd.spawn().expect("spawn worker");
         children.push((i, child));
     }
@@ -46,11 +46,26 @@ pub fn fan_out(n: usize, args: &[String]) -> Vec<WorkerOutput> {
     for (i, mut child) in children {
         handles.push(std::thread::spawn(move || {
             let out = child.stdout.take().unwrap();
+            // forward the worker's stderr, minus the engine's per-panic chatter
+            let err = child.stderr.take().unwrap();
+            let verbose = std::env::var("VERIF_SHOW_PANICS").is_ok();
+            let err_thread = std::thread::spawn(move || {
+                for line in BufReader::new(err).lines().map_while(Result::ok) {
+                    let noise = line.starts_with("Task failed, serializing schedule")
+                        || line.starts_with("test panicked in task")
+                        || line.starts_with("failing schedule")
+                        || line.starts_with("pass that string to");
+                    if verbose || !noise {
+                        eprintln!("{line}");
+                    }
+                }
+            });
             let lines: Vec<String> = BufReader::new(out)
                 .lines()
                 .map(|l| l.unwrap_or_default())
                 .collect();
             let status = child.wait().expect("wait worker");
+            let _ = err_thread.join();
             WorkerOutput {
                 index: i,
                 lines,
